@@ -1,204 +1,1390 @@
 """C13 Distance kernels: validation, bounds, prange ownership, zeroing,
-wrapper discipline, formula shape, metric registry."""
-import ast
+wrapper discipline, formula shape, metric registry.
 
-from ..cfg import ENTRY, EXIT, Assume
-from ..core import (AnalysisIncomplete, call_name, const_value, kwarg,
-                    names_loaded, params, target_names, u, walk_expr,
-                    walk_local)
-from ..cykernel import (check_bounds, check_elem_type_temps, check_prange,
-                        check_zero_before_accumulate, subscript_dims)
+The constructs are located by ROLE (positional parameters, the object that is
+returned, the store into the output buffer, the call to a kernel, the guard
+whose raising side cannot reach the return) and compared after expansion of
+temporaries and canonicalisation, so the rules are independent of local names,
+of which sub-expressions carry a name, of operand order of symmetric
+comparisons, of if/else versus guard-clause form and of statement order where
+that order does not matter.  Every content comparison is three-valued:
+recognised and right -> discharged; recognised and wrong (another pure
+function of the same operands, a guard that is absent with nothing unexplained
+in its place) -> VIOLATION; not recognised -> ANALYSIS-INCOMPLETE."""
+import ast
+import copy
+
+from ..cfg import ENTRY, EXIT, Assume, stmt_defs
+from ..core import (call_name, const_value, kwarg, names_loaded, params,
+                    target_names, u, walk_expr, walk_local)
+from ..cykernel import (Kernel, check_bounds, check_elem_type_temps,
+                        check_prange, check_zero_before_accumulate,
+                        norm_extent)
+from ..match import canon, match
+from ..normal import MUTATING_METHODS, PURE_FUNCS, is_pure
 from ..patterns import Cmp, calls_in, conjuncts, finfo, returns_of
 
 LD = 'enspara/geometry/libdist.pyx'
 CU = 'enspara/cluster/util.py'
-KERNELS = ('_hamming', '_manhattan', '_euclidean')
+# public entry points (metric name -> conventional private kernel name).  The private
+# helpers are found by ROLE (discover): a kernel is a module function with typed-buffer
+# parameters that an entry point calls, the preparation step is the module function whose
+# result an entry point hands to a kernel as its output buffer.  The conventional names
+# are only the fall-back when nothing is discovered.
 WRAPPERS = {'hamming': '_hamming', 'manhattan': '_manhattan', 'euclidean': '_euclidean'}
+PREP_DEFAULT = '_prepare_for_2d_to_1d_distance'
 
 EXPLANATION = (
-    'Static decision, on Cython\'s own parse tree of libdist.pyx, of: (D0) the '
-    'five validation guards (rank of X, rank of y, width, out dtype, out '
-    'length/rank) each end in a raise and dominate every kernel call; (D1) '
-    'every typed-buffer subscript in the boundscheck(False) kernels is in '
-    'range in every dimension (loop ranges vs extents through equalities '
-    'harvested from cdef initialisers and asserts); (D2) inside prange each '
-    'iteration writes only out[i] and reads no cell another iteration writes; '
-    '(D3) out[i] is stored before it is accumulated into; (D4) the wrappers '
-    'return the very buffer that was validated/allocated and handed to the '
-    'kernel; (D5) the accumulated term has the right shape per metric and no '
-    'element-typed temporary holds an arithmetic result; (D6) metric names map '
-    'to the right kernels. Floating-point exactness and memory layouts are '
-    'delegated to Cython typed-buffer indexing (no raw pointers: checked).')
+    'Static decision, on Cython\'s own parse tree of libdist.pyx (kernels = the '
+    'typed-buffer functions the three public entry points call, preparation '
+    'step = the function whose result they hand to the kernel as out), of: (D0) the '
+    'six validation facts (rank of X, rank of y, width, out dtype, out length, '
+    'out rank) are each established by a guard whose failing side ends in a '
+    'raise (directly or inside a module helper that is called), on every path '
+    'to a return of the preparation step (the out facts on every path that '
+    'returns the caller\'s buffer), and the default buffer is a 1-D float64 '
+    'allocation of n_samples cells made only when out is None; (D1) every '
+    'typed-buffer subscript in the boundscheck(False) kernels is in range in '
+    'every dimension (loop ranges vs extents through equalities harvested from '
+    'cdef initialisers and asserts); (D2) inside prange each iteration writes '
+    'only out[i] and reads no cell another iteration writes; (D3) out[i] is '
+    'stored before it is accumulated into; (D4) the wrappers hand (X, y) and '
+    'the validated/allocated buffer to the right kernel, the kernel call lies '
+    'on every path to the return, and the very same buffer object is returned; '
+    '(D5) per metric every accumulation into out[i] adds the right term of '
+    'X[i, j] and y[j] over the full feature range for every row, initial '
+    'stores write 0 and never follow the accumulation, the finishing store '
+    '(sqrt / division by n_features) is applied exactly once per cell after '
+    'the accumulation, and no element-typed temporary holds an arithmetic '
+    'result; (D6) metric names map to the right kernels (decision list of '
+    '_get_distance_method evaluated per name). Floating-point exactness and '
+    'memory layouts are delegated to Cython typed-buffer indexing (no raw '
+    'pointers: checked).')
+
+PARAM_ONLY = frozenset({'PARAM'})
+_ORDER_OPS = (ast.Eq, ast.NotEq, ast.Lt, ast.LtE, ast.Gt, ast.GtE)
+# exact spellings of the float64 dtype
+F64 = {'np.float64', 'numpy.float64', 'np.double', 'np.float_', 'float', "'float64'", "'f8'", "'d'",
+       "'double'", "np.dtype('float64')", 'np.dtype(np.float64)', 'np.dtype(float)', "np.dtype('f8')"}
+# C locals through which a value passes unchanged (no narrowing)
+WIDE = {'double', 'np.float64_t', 'np.double_t', 'np.npy_float64', 'np.npy_double', 'long double'}
+CMATH = {'fabs', 'sqrt', 'pow', 'abs'}
+_NEUTRAL = {'np', 'numpy', 'len', 'int', 'float', 'abs', 'min', 'max', 'sum', 'tuple', 'list', 'bool',
+            'True', 'False', 'None', 'range', 'str'}
+ALLOCATORS = {'np.zeros', 'np.empty', 'np.ones', 'numpy.zeros', 'numpy.empty', 'numpy.ones'}
 
 
-def d0_validation(ck, mod):
+# ---------------------------------------------------------------------------
+# helpers (candidates for promotion to sa/cfg.py / sa/patterns.py)
+
+def _pure_expr(v, pure=()):
+    """is_pure, with calls to the given bare names (C math functions declared
+    `nogil` in a cdef extern block) treated as pure."""
+    if not pure:
+        return is_pure(v)
+
+    class T(ast.NodeTransformer):
+        def visit_Call(self, n):
+            self.generic_visit(n)
+            if isinstance(n.func, ast.Name) and n.func.id in pure:
+                return ast.Tuple(elts=list(n.args), ctx=ast.Load())
+            return n
+    return is_pure(T().visit(copy.deepcopy(v)))
+
+
+def _closed(node, scope, pure=()):
+    """`node` is a pure function of the names in `scope` only (a *different
+    function of the same operands* when it is not an accepted form)."""
+    if not isinstance(node, ast.AST) or not _pure_expr(node, pure):
+        return False
+    for x in ast.walk(node):
+        if isinstance(x, ast.Name) and x.id not in scope and x.id not in _NEUTRAL and x.id not in pure:
+            return False
+    return True
+
+
+class Expander:
+    """FuncInfo.expand with (a) extra call names known to be pure, (b) a
+    filter on the temporaries that may be seen through (C locals whose type
+    does not change the value), (c) a record of the reaching definitions of
+    every leaf name (`leaf[name]` = set of frozensets of definition sites), so
+    that a caller can demand "this operand is the unmodified parameter"."""
+
+    def __init__(self, fi, pure=(), temp_ok=None, stop=()):
+        self.fi = fi
+        self.pure = set(pure)
+        self.temp_ok = temp_ok
+        self.stop = set(stop)
+        self.leaf = {}
+
+    def temp_value(self, n):
+        fi = self.fi
+        if not (isinstance(n, ast.Name) and isinstance(n.ctx, ast.Load)) or n.id in self.stop:
+            return None
+        if self.temp_ok is not None and not self.temp_ok(n.id):
+            return None
+        try:
+            defs = fi.defs_of_use(n)
+        except Exception:
+            return None
+        if len(defs) != 1:
+            return None
+        site = next(iter(defs))
+        if site in ('PARAM', 'UNBOUND') or not isinstance(site, (ast.Assign, ast.AnnAssign)):
+            return None
+        v = fi.def_value(site, n.id)
+        if v is None or isinstance(v, ast.GeneratorExp) or not _pure_expr(v, self.pure):
+            return None
+        if fi._mutated_in_place(n.id):
+            return None
+        use = fi.stmt(n)
+        for m in walk_expr(v):
+            if not (isinstance(m, ast.Name) and isinstance(m.ctx, ast.Load)):
+                continue
+            if fi.rd.defs_at(site, m.id) != fi.rd.defs_at(use, m.id):
+                return None
+            for ms in fi._mutated_in_place(m.id):
+                if ms is use or ms is site:
+                    continue
+                if fi.cfg.reachable(site, ms, avoiding=[use]) and fi.cfg.reachable(ms, use, avoiding=[site]):
+                    return None
+        return v
+
+    def expand(self, e, depth=8):
+        if isinstance(e, ast.Name):
+            if isinstance(e.ctx, ast.Load):
+                v = self.temp_value(e) if depth > 0 else None
+                if v is not None:
+                    return self.expand(v, depth - 1)
+                try:
+                    ds = frozenset(self.fi.defs_of_use(e))
+                except Exception:
+                    ds = frozenset()
+                self.leaf.setdefault(e.id, set()).add(ds)
+            return ast.copy_location(ast.Name(id=e.id, ctx=e.ctx), e)
+        if not isinstance(e, ast.AST):
+            return e
+        if isinstance(e, (ast.expr_context, ast.operator, ast.unaryop, ast.boolop, ast.cmpop)):
+            return e
+        new = type(e)()
+        for f in e._fields:
+            val = getattr(e, f, None)
+            if isinstance(val, list):
+                setattr(new, f, [self.expand(x, depth) for x in val])
+            elif isinstance(val, ast.AST):
+                setattr(new, f, self.expand(val, depth))
+            else:
+                setattr(new, f, val)
+        for a in ('lineno', 'col_offset', 'end_lineno', 'end_col_offset'):
+            if hasattr(e, a):
+                setattr(new, a, getattr(e, a))
+        return new
+
+    def param_only(self, *names):
+        """Every leaf use of the given names denotes the unmodified parameter."""
+        return all(self.leaf.get(n, set()) <= {PARAM_ONLY} for n in names)
+
+
+class _Ext(ast.NodeTransformer):
+    """Canonical spelling of extents of ndarrays: len(A) -> A.shape[0],
+    A.ndim / np.ndim(A) -> len(A.shape), np.shape(A) -> A.shape,
+    A.shape[-k] -> A.shape[rank-k] for arrays of validated rank."""
+
+    def __init__(self, ranks):
+        self.ranks = ranks
+
+    @staticmethod
+    def _shape(a):
+        return ast.Attribute(value=a, attr='shape', ctx=ast.Load())
+
+    def visit_Call(self, n):
+        self.generic_visit(n)
+        cn = call_name(n)
+        if n.keywords or len(n.args) != 1:
+            return n
+        a = n.args[0]
+        if cn == 'len' and isinstance(a, ast.Name):
+            return ast.Subscript(value=self._shape(a), slice=ast.Constant(value=0), ctx=ast.Load())
+        if cn in ('np.ndim', 'numpy.ndim'):
+            return ast.Call(func=ast.Name(id='len', ctx=ast.Load()), args=[self._shape(a)], keywords=[])
+        if cn in ('np.shape', 'numpy.shape'):
+            return self._shape(a)
+        return n
+
+    def visit_Attribute(self, n):
+        self.generic_visit(n)
+        if n.attr == 'ndim' and isinstance(n.value, ast.Name) and n.value.id not in ('np', 'numpy'):
+            return ast.Call(func=ast.Name(id='len', ctx=ast.Load()), args=[self._shape(n.value)], keywords=[])
+        return n
+
+    def visit_Subscript(self, n):
+        self.generic_visit(n)
+        v = n.value
+        if isinstance(v, ast.Attribute) and v.attr == 'shape' and isinstance(v.value, ast.Name) \
+                and v.value.id in self.ranks:
+            c = const_value(n.slice)
+            if isinstance(c, int) and not isinstance(c, bool) and c < 0 and self.ranks[v.value.id] + c >= 0:
+                return ast.Subscript(value=v, slice=ast.Constant(value=self.ranks[v.value.id] + c), ctx=n.ctx)
+        return n
+
+
+def _xt(e, ranks=None):
+    n = _Ext(ranks or {}).visit(copy.deepcopy(e))
+    ast.fix_missing_locations(n)
+    return u(canon(n))
+
+
+class _Subst(ast.NodeTransformer):
+    def __init__(self, m):
+        self.m = m
+
+    def visit_Name(self, n):
+        if n.id in self.m and isinstance(n.ctx, ast.Load):
+            return copy.deepcopy(self.m[n.id])
+        return n
+
+
+def _real_nodes(fi):
+    return [s for s in fi.cfg.nodes if s not in (ENTRY, EXIT) and not isinstance(s, Assume)]
+
+
+def _rebinds(fi, name):
+    """Statements that (re)bind the local `name`."""
+    return [s for s in _real_nodes(fi) if name in stmt_defs(s)]
+
+
+def _clean_raises(fi):
+    """Raise statements that leave the function (not caught by a handler)."""
+    return [s for s in fi.cfg.nodes if isinstance(s, ast.Raise) and fi.cfg.succ.get(s) == [EXIT]]
+
+
+def _assumes(fi, ifnode):
+    t = f = None
+    for s in fi.cfg.succ.get(ifnode, []):
+        if isinstance(s, Assume) and s.owner is ifnode:
+            if s.polarity:
+                t = s
+            else:
+                f = s
+    return t, f
+
+
+def _only_none_tests(test):
+    """The test is a boolean combination of `name is [not] None` only."""
+    for n in ast.walk(test):
+        if isinstance(n, (ast.BoolOp, ast.boolop, ast.expr_context, ast.Name, ast.cmpop, ast.unaryop)):
+            continue
+        if isinstance(n, ast.UnaryOp) and isinstance(n.op, ast.Not):
+            continue
+        if isinstance(n, ast.Constant) and n.value is None:
+            continue
+        if isinstance(n, ast.Compare) and len(n.ops) == 1 and isinstance(n.ops[0], (ast.Is, ast.IsNot)) \
+                and isinstance(n.left, ast.Name) and isinstance(n.comparators[0], ast.Constant) \
+                and n.comparators[0].value is None:
+            continue
+        return False
+    return True
+
+
+def _swallowed(fi, st):
+    """An exception raised at statement `st` may be caught inside the function."""
+    return any(isinstance(x, ast.ExceptHandler) for x in fi.cfg.succ.get(st, []))
+
+
+def _call_binding(h, c):
+    """parameter name -> argument expression of call c to function h (None if
+    the call cannot be mapped positionally/by keyword)."""
+    ps = params(h)
+    if any(isinstance(a, ast.Starred) for a in c.args) or any(k.arg is None for k in c.keywords):
+        return None
+    if len(c.args) > len(ps):
+        return None
+    m = dict(zip(ps, c.args))
+    for k in c.keywords:
+        if k.arg not in ps or k.arg in m:
+            return None
+        m[k.arg] = k.value
+    return m
+
+
+def _is_kernel(mod, f, fused):
+    """A module-level function with at least one typed-buffer parameter."""
+    at = getattr(f, 'cy_argtypes', None)
+    if not at:
+        return False
+    for t in at.values():
+        if t.is_buffer:
+            return True
+        alts = fused.get(t.base) if isinstance(fused, dict) else None
+        if alts and all(a.is_buffer for a in alts):
+            return True
+    return False
+
+
+def discover(mod, fused):
+    """-> (kernel_of: entry point -> [kernel names it calls], kernels (ordered,
+    distinct), preps: names of the preparation function(s))."""
+    kernel_of, kernels, preps = {}, [], []
+    for w in WRAPPERS:
+        fn = mod.functions.get(w)
+        kernel_of[w] = []
+        if fn is None:
+            continue
+        fi = finfo(mod, fn)
+        for c in calls_in(fn):
+            cn = call_name(c)
+            f = mod.functions.get(cn) if cn else None
+            if f is None or not _is_kernel(mod, f, fused):
+                continue
+            if cn not in kernel_of[w]:
+                kernel_of[w].append(cn)
+            if cn not in kernels:
+                kernels.append(cn)
+            bind = _call_binding(f, c)
+            ps = params(f)
+            a = bind.get(ps[2]) if bind and len(ps) > 2 else None
+            if isinstance(a, ast.Name):
+                for site in fi.defs_of_use(a):
+                    dv = fi.def_value(site, a.id) if site not in ('PARAM', 'UNBOUND') else None
+                    if isinstance(dv, ast.Call) and call_name(dv) in mod.functions and \
+                            not _is_kernel(mod, mod.functions[call_name(dv)], fused) and call_name(dv) not in preps:
+                        preps.append(call_name(dv))
+    if not preps and PREP_DEFAULT in mod.functions:
+        preps = [PREP_DEFAULT]
+    return kernel_of, kernels, preps
+
+
+_facts_cache = {}
+
+
+def guard_facts(mod, fn, depth=2, skip=frozenset()):
+    """Comparisons that are known to hold once control has passed a guard of
+    `fn` on its non-raising side.
+
+    -> (facts, opaque).  A fact is a dict: site (statement of fn's CFG: the
+    guard `if`, or the statement that calls a helper establishing the fact on
+    every normal completion), op/lhs/rhs (atomic comparison, temporaries
+    expanded), leaf (reaching definitions of the operand names in fn), text.
+    `opaque` lists (site, names, description) for tests and calls that the
+    analysis cannot interpret and that may hide a guard on those names."""
+    key = (id(mod), id(fn), depth, skip)
+    if key in _facts_cache:
+        return _facts_cache[key]
+    fi = finfo(mod, fn)
+    raises = _clean_raises(fi)
+    facts, opaque = [], []
+    for n in _real_nodes(fi):
+        if not isinstance(n, ast.If):
+            continue
+        at, af = _assumes(fi, n)
+        if at is None or af is None:
+            continue
+        rt = not fi.cfg.reachable(at, EXIT, avoiding=raises)
+        rf = not fi.cfg.reachable(af, EXIT, avoiding=raises)
+        names = names_loaded(n.test)
+        if rt == rf:
+            if not rt and not _only_none_tests(n.test):
+                opaque.append((n, names, 'branch on `%s`' % u(n.test)))
+            continue
+        cs = conjuncts(n.test, not rt)
+        if cs is None:
+            opaque.append((n, names, 'guard `%s` does not split into atomic facts' % u(n.test)))
+            continue
+        for c in cs:
+            if isinstance(c, Cmp):
+                ex = Expander(fi)
+                facts.append({'site': n, 'op': c.op, 'lhs': ex.expand(c.lhs), 'rhs': ex.expand(c.rhs),
+                              'leaf': ex.leaf, 'text': u(n.test), 'via': None})
+            else:
+                opaque.append((n, names_loaded(c[1]), 'guard on `%s`' % u(c[1])))
+    for c in calls_in(fn):
+        st = fi.stmt(c)
+        if st is None or isinstance(st, ast.Raise):
+            continue
+        cn = call_name(c)
+        argnames = set()
+        for a in list(c.args) + [k.value for k in c.keywords]:
+            argnames |= names_loaded(a)
+        h = mod.functions.get(cn) if cn else None
+        if h is not None and h is not fn and cn not in skip:
+            bind = _call_binding(h, c)
+            if depth <= 0 or bind is None or _swallowed(fi, st):
+                opaque.append((st, argnames, 'call `%s`' % u(c)))
+                continue
+            hf, ho = guard_facts(mod, h, depth - 1, skip)
+            hfi = finfo(mod, h)
+            hr = _clean_raises(hfi)
+            hps = set(params(h))
+            for f in hf:
+                if hfi.cfg.reachable(ENTRY, EXIT, avoiding=[f['site']] + hr):
+                    continue      # not on every normal completion of the helper
+                good = True
+                for nm, dss in f['leaf'].items():
+                    if nm in hps:
+                        good = good and nm in bind and dss <= {PARAM_ONLY}
+                    else:
+                        good = good and dss <= {frozenset()}      # a global, not a helper local
+                if not good:
+                    continue
+                ex = Expander(fi)
+                actual = {p: ex.expand(a) for p, a in bind.items()}
+                sub = _Subst(actual)
+                facts.append({'site': st, 'op': f['op'], 'lhs': sub.visit(copy.deepcopy(f['lhs'])),
+                              'rhs': sub.visit(copy.deepcopy(f['rhs'])), 'leaf': ex.leaf,
+                              'text': '%s: %s' % (u(c), f['text']), 'via': cn})
+            if ho:
+                opaque.append((st, argnames, 'helper `%s` contains checks the analysis cannot interpret' % cn))
+            continue
+        if cn is None:
+            if argnames:
+                opaque.append((st, argnames, 'call `%s`' % u(c)))
+            continue
+        head = cn.split('.')[0]
+        if cn.startswith('np.testing') or cn.startswith('numpy.testing'):
+            opaque.append((st, argnames, 'call `%s`' % u(c)))
+        elif head in ('np', 'numpy', 'math') or cn in PURE_FUNCS or head in params(fn):
+            continue          # numpy / builtin / ndarray method: does not validate
+        elif argnames:
+            opaque.append((st, argnames, 'call `%s`' % u(c)))
+    _facts_cache[key] = (facts, opaque)
+    return facts, opaque
+
+
+def _fact_holds(fi, f, r, avoid=()):
+    """Every path ENTRY -> r passes the guard (hence left it on the
+    non-raising side) without crossing one of the `avoid` statements."""
+    return not fi.cfg.reachable(ENTRY, r, avoiding=[f['site']] + list(avoid))
+
+
+def _eq_fact(f, left, right, ranks):
+    if f['op'] is not ast.Eq:
+        return False
+    l, r = _xt(f['lhs'], ranks), _xt(f['rhs'], ranks)
+    return (l in left and r in right) or (r in left and l in right)
+
+
+# ---------------------------------------------------------------------------
+# D0: validation and default allocation;  D4 (first half): same buffer
+
+def _alloc_verdict(fi, call, X, y, ranks):
+    """Is `call` a fresh 1-D float64 array with one cell per row of X?"""
+    cn = call_name(call)
+    if cn not in ALLOCATORS:
+        return 'far', 'not a recognised allocator'
+    if len(call.args) > 2 or any(k.arg not in ('shape', 'dtype', 'order') for k in call.keywords):
+        return 'far', 'unfamiliar arguments'
+    shape = call.args[0] if call.args else kwarg(call, 'shape')
+    dtype = call.args[1] if len(call.args) > 1 else kwarg(call, 'dtype')
+    if shape is None:
+        return 'far', 'no shape'
+    ex = Expander(fi)
+    es = ex.expand(shape)
+    ed = ex.expand(dtype) if dtype is not None else None
+    want = {'%s.shape[0]' % X, '(%s.shape[0],)' % X, '[%s.shape[0]]' % X, '%s.shape[:1]' % X}
+    sok = _xt(es, ranks) in want and ex.param_only(X)
+    dok = ed is None or _xt(ed) in F64
+    if sok and dok:
+        return 'match', '%s of %s cells, float64' % (cn, _xt(es, ranks))
+    if _closed(es, {X, y}) and (ed is None or _closed(ed, {X, y})):
+        return 'near', ('extent %s' % _xt(es, ranks) if not sok else 'dtype %s' % _xt(ed))
+    return 'far', 'shape/dtype not recognised'
+
+
+def d0_validation(ck, mod, PREP, kernels=()):
     rule = 'C13.D0.validation'
-    prep = mod.func('_prepare_for_2d_to_1d_distance')
+    prep = mod.func(PREP)
     ck.analysed(mod, prep)
     fi = finfo(mod, prep)
-    X, y, out = params(prep)[:3]
-    # helper checks
-    for helper, arg, rank in (('_check_is_2d', X, 2), ('_check_is_1d', y, 1)):
-        h = mod.func(helper)
-        ifs = [n for n in h.body if isinstance(n, ast.If)]
-        p = params(h)[0]
-        ok = len(ifs) == 1 and any(isinstance(x, ast.Raise) for x in ifs[0].body) and \
-            u(ifs[0].test) in ('len(%s.shape) != %d' % (p, rank), '%s.ndim != %d' % (p, rank))
-        ck.check(ok, rule, mod, ifs[0] if ifs else h, helper, u(ifs[0].test) if ifs else helper,
-                 'rank != %d raises' % rank, '%s must raise unless the rank is exactly %d' % (helper, rank))
-        cs = [c for c in calls_in(prep) if call_name(c) == helper]
-        ok = len(cs) == 1 and cs[0].args and u(cs[0].args[0]) == arg and \
-            fi.stmt(cs[0]) in prep.body
-        ck.check(ok, rule, mod, cs[0] if cs else prep, '_prepare_for_2d_to_1d_distance',
-                 u(cs[0]) if cs else helper, '%s(%s) called unconditionally' % (helper, arg),
-                 '%s(%s) must be called unconditionally before the kernel' % (helper, arg))
-    def raising_if(pred):
-        for n in walk_local(prep):
-            if isinstance(n, ast.If) and any(isinstance(x, ast.Raise) for x in n.body):
-                cs = conjuncts(n.test, True)
-                if cs and len(cs) == 1 and isinstance(cs[0], Cmp) and pred(cs[0]):
-                    return n
-        return None
-    def neq(a, b):
-        return lambda c: c.op is ast.NotEq and {u(c.lhs), u(c.rhs)} == {a, b}
-    checks = [
-        ('width', neq('%s.shape[1]' % X, '%s.shape[0]' % y)),
-        ('out dtype', neq('%s.dtype' % out, 'np.float64')),
-        ('out length', neq('%s.shape[0]' % out, '%s.shape[0]' % X)),
-        ('out rank', lambda c: c.op is ast.NotEq and {u(c.lhs), u(c.rhs)} in (
-            {'len(%s.shape)' % out, '1'}, {'%s.ndim' % out, '1'})),
-    ]
-    for label, pred in checks:
-        n = raising_if(pred)
-        ck.check(n is not None, rule, mod, n or prep, '_prepare_for_2d_to_1d_distance',
-                 '%s guard: %s' % (label, u(n.test) if n else 'missing'),
-                 '%s mismatch raises' % label,
-                 'the %s guard (raise on mismatch) is missing or weakened: the nogil kernel '
-                 'would read/write out of bounds' % label)
-        if n is not None and label.startswith('out'):
-            # must be on the `out is not None` path and not skipped
-            g = mod.parent.get(n)
-            while g is not None and not isinstance(g, ast.If):
-                g = mod.parent.get(g)
-            okg = g is not None and u(g.test) in ('%s is None' % out, '%s is not None' % out)
-            ck.check(okg, rule, mod, n, '_prepare_for_2d_to_1d_distance', 'path of ' + label,
-                     'checked whenever a buffer is supplied', 'guard is not on the supplied-buffer path')
-    # allocation when out is None
-    allocs = [s for s in walk_local(prep) if isinstance(s, ast.Assign) and u(s.targets[0]) == out
-              and isinstance(s.value, ast.Call)]
-    ok = len(allocs) == 1 and call_name(allocs[0].value) == 'np.zeros' and \
-        u(allocs[0].value.args[0]) in ('%s.shape[0]' % X, '(%s.shape[0],)' % X, 'len(%s)' % X) and \
-        u(kwarg(allocs[0].value, 'dtype')) == 'np.float64'
-    ck.check(ok, rule + '.alloc', mod, allocs[0] if allocs else prep, '_prepare_for_2d_to_1d_distance',
-             u(allocs[0]) if allocs else 'allocation', 'default buffer: zeros(n_samples) float64, 1-D',
-             'the default output must be np.zeros(X.shape[0], dtype=np.float64)')
-    # returns the buffer object itself
-    for r in returns_of(prep):
-        ok = isinstance(r.value, ast.Name) and r.value.id == out
-        if ok:
-            defs = fi.defs_of_use(r.value)
-            ok = all(d == 'PARAM' or d in allocs for d in defs)
-        ck.check(ok, 'C13.D4.same-buffer', mod, r, '_prepare_for_2d_to_1d_distance', u(r),
-                 'returns the caller\'s buffer object (or the fresh allocation)',
-                 'the preparation step must hand back the caller\'s `out` object itself; a '
-                 'converted copy (ascontiguousarray/astype/reshape-copy) makes the kernel '
-                 'fill a temporary and the caller\'s buffer never holds the result')
+    ps = params(prep)
+    if len(ps) < 3:
+        ck.missing(rule, '%s no longer takes (X, y, out)' % PREP)
+        return
+    X, y, out = ps[:3]
+    ranks = {X: 2, y: 1}
+    facts, opaque = guard_facts(mod, prep, 2, frozenset(kernels))
+    rets = returns_of(prep)
+    if not rets:
+        ck.missing(rule, '%s has no return statement' % PREP)
+        return
+    for nm in (X, y):
+        if _rebinds(fi, nm):
+            ck.missing(rule, 'parameter %s of %s is rebound: the validated object is not the caller\'s' % (nm, PREP))
+            return
+    # the buffer variable(s): the parameter and locals that are bound to it by a plain copy
+    # (`buf = out`); every other binding of these names is a rebinding (fresh allocation, copy ...)
+    alias_sites, onames = [], {out}
+    for st in _real_nodes(fi):
+        if isinstance(st, ast.Assign) and len(st.targets) == 1 and isinstance(st.targets[0], ast.Name):
+            ex = Expander(fi)
+            ev = ex.expand(st.value)
+            if isinstance(ev, ast.Name) and ev.id == out and ex.param_only(out) and st.targets[0].id != out:
+                alias_sites.append(st)
+                onames.add(st.targets[0].id)
+    rebinds = [st for nm in sorted(onames) for st in _rebinds(fi, nm) if st not in alias_sites]
+    outs = sorted(onames)
+
+    # ---- what object does each return hand back?
+    param_rets, allocs, n_ret = [], [], 0
+    for p in fi.cfg.pred.get(EXIT, []):
+        if not isinstance(p, (ast.Return, ast.Raise)):
+            ck.bad('C13.D4.same-buffer', mod, prep, PREP, 'implicit return None',
+                   'the preparation step can fall off its end: the kernel would receive None instead of a buffer')
+    for r in rets:
+        v = r.value
+        objs = []
+        if v is None:
+            ck.bad('C13.D4.same-buffer', mod, r, PREP, u(r), 'the preparation step must return the output buffer')
+            continue
+        if isinstance(v, ast.Name):
+            for site in fi.defs_of_use(v):
+                if site == 'PARAM' or (site in alias_sites and v.id in onames):
+                    if v.id in onames:
+                        if r not in param_rets:
+                            param_rets.append(r)
+                        ck.ok('C13.D4.same-buffer', mod, r, u(r), 'returns the caller\'s buffer object')
+                    else:
+                        ck.bad('C13.D4.same-buffer', mod, r, PREP, u(r),
+                               'the preparation step returns parameter `%s`, not the output buffer' % v.id)
+                elif site == 'UNBOUND':
+                    ck.bad('C13.D4.same-buffer', mod, r, PREP, u(r), 'the returned name may be unbound')
+                else:
+                    objs.append((site, fi.def_value(site, v.id)))
+        else:
+            objs.append((r, v))
+        for site, dv in objs:
+            n_ret += 1
+            if dv is None:
+                ck.missing('C13.D4.same-buffer', 'definition `%s` of the returned buffer at %s is not a plain assignment'
+                           % (u(site)[:80], mod.loc(site)))
+                continue
+            ex = Expander(fi)
+            edv = ex.expand(dv)
+            if isinstance(edv, ast.Call) and call_name(edv) in ALLOCATORS:
+                allocs.append((site, dv))
+                continue
+            closed = _closed(edv, {X, y} | onames)
+            if names_loaded(edv) & onames and r not in param_rets:
+                param_rets.append(r)      # derived from the caller's buffer: the out facts are still due
+            detail = ('the preparation step must hand back the caller\'s `out` object itself; a '
+                      'converted copy (ascontiguousarray/astype/reshape-copy) makes the kernel '
+                      'fill a temporary and the caller\'s buffer never holds the result')
+            if closed:
+                ck.bad('C13.D4.same-buffer', mod, site, PREP, u(site), detail)
+            else:
+                ck.missing('C13.D4.same-buffer', 'returned object `%s` at %s is not recognised (%s)'
+                           % (u(dv)[:100], mod.loc(site), detail[:70]))
+
+    # ---- what the branches tell about None-ness of the current `out` (on a path without
+    # rebinding of `out` that is the caller's argument)
+    none_as, notnone_as = [], []
+    for a in fi.cfg.nodes:
+        if not isinstance(a, Assume):
+            continue
+        for c in conjuncts(a.test, a.polarity) or []:
+            if isinstance(c, Cmp) and c.op in (ast.Is, ast.IsNot) and isinstance(c.lhs, ast.Name) and c.lhs.id in onames \
+                    and isinstance(c.rhs, ast.Constant) and c.rhs.value is None:
+                (none_as if c.op is ast.Is else notnone_as).append(a)
+    for r in param_rets:
+        # a rebinding-free path on which `out` is known to be None and never known to be a buffer
+        leak = [a for a in none_as
+                if (fi.cfg.reachable(ENTRY, a, avoiding=rebinds + notnone_as))
+                and fi.cfg.reachable(a, r, avoiding=rebinds + notnone_as)]
+        ck.check(not leak, 'C13.D4.same-buffer', mod, leak[0].owner if leak else r, PREP,
+                 'out is None path to ' + u(r), 'no path returns None in place of a buffer',
+                 'when no buffer is supplied a path reaches `%s` without allocating one: the kernel receives None' % u(r))
+
+    # ---- the six facts
+    def need(label, left, right, names, which):
+        """which: returns at which the fact must hold; out-facts need not hold
+        on paths that rebind `out` (those return the fresh allocation)."""
+        is_out = bool(set(names) & onames)
+        # X and y are never rebound (checked above); `out` at the guard is the object that
+        # is returned iff no rebinding of `out` lies between the guard and the return
+        cands = [f for f in facts if _eq_fact(f, left, right, ranks)
+                 and all(f['leaf'].get(nm, set()) <= {PARAM_ONLY} for nm in (X, y))
+                 and not _swallowed(fi, f['site'])]
+
+        def same_object(f, r):
+            return not any(fi.cfg.reachable(f['site'], rb) and fi.cfg.reachable(rb, r) for rb in rebinds)
+        okr, witness = True, None
+        for r in which:
+            # out facts: paths that rebind `out` return the fresh allocation, paths on which
+            # `out` is None are dealt with above - neither needs the guard
+            hit = [f for f in cands if _fact_holds(fi, f, r, (rebinds + none_as) if is_out else ())
+                   and (not is_out or same_object(f, r))]
+            if not hit:
+                okr = False
+                break
+            witness = hit[0]
+        construct = '%s guard: %s' % (label, witness['text'] if (okr and witness) else 'missing')
+        if okr:
+            if witness and witness['via'] in mod.functions:
+                ck.analysed(mod, mod.functions[witness['via']])
+            ck.ok(rule, mod, witness['site'] if witness else prep, construct,
+                  '%s mismatch raises on every path to the kernel' % label)
+            return
+        why = ('the %s guard (raise on mismatch) is missing, weakened or not on every path that '
+               'reaches the kernel: the nogil kernel would read/write out of bounds' % label)
+        unexplained = [o for o in opaque if o[1] & set(names)]
+        # a raising guard on these operands built with an operator the rule does not reason
+        # about (is / in ...) may well be an equivalent spelling: not a violation
+        unexplained += [(f['site'], set(), 'guard `%s`' % f['text']) for f in facts
+                        if f['op'] not in _ORDER_OPS and (names_loaded(f['lhs']) | names_loaded(f['rhs'])) & set(names)]
+        if cands:
+            # the right guard exists but some path goes round it
+            ck.bad(rule, mod, cands[0]['site'], PREP, 'path of %s guard: %s' % (label, cands[0]['text']),
+                   'the guard is not on every path that %s' % (
+                       'returns the supplied buffer' if is_out else 'reaches the kernel'))
+        elif unexplained:
+            ck.missing(rule, '%s guard not recognised in %s; uninterpreted: %s' % (
+                label, PREP, '; '.join(o[2] for o in unexplained)[:200]))
+        else:
+            ck.bad(rule, mod, prep, PREP, construct, why)
+
+    allr = list(rets)
+    need('rank of X', {'len(%s.shape)' % X}, {'2'}, (X,), allr)
+    need('rank of y', {'len(%s.shape)' % y}, {'1'}, (y,), allr)
+    need('width', {'%s.shape[1]' % X}, {'%s.shape[0]' % y}, (X, y), allr)
+    if not param_rets:
+        ck.missing(rule, 'no return of the caller-supplied buffer found in %s' % PREP)
+    else:
+        need('out dtype', {'%s.dtype' % o for o in outs}, F64, outs, param_rets)
+        # `out.shape == (n,)` settles length and rank at once
+        shape_eq = [f for f in facts if _eq_fact(f, {'%s.shape' % o for o in outs}, {'(%s.shape[0],)' % X}, ranks)
+                    and all(f['leaf'].get(nm, set()) <= {PARAM_ONLY} for nm in (X, y)) and not _swallowed(fi, f['site'])]
+        if shape_eq and all(any(_fact_holds(fi, f, r, rebinds + none_as) and not any(
+                fi.cfg.reachable(f['site'], rb) and fi.cfg.reachable(rb, r) for rb in rebinds)
+                for f in shape_eq) for r in param_rets):
+            ck.ok(rule, mod, shape_eq[0]['site'], 'out length guard: ' + shape_eq[0]['text'], 'shape compared as a whole')
+            ck.ok(rule, mod, shape_eq[0]['site'], 'out rank guard: ' + shape_eq[0]['text'], 'shape compared as a whole')
+        else:
+            need('out length', {'%s.shape[0]' % o for o in outs}, {'%s.shape[0]' % X}, outs + [X], param_rets)
+            need('out rank', {'len(%s.shape)' % o for o in outs}, {'1'}, outs, param_rets)
+
+    # ---- default allocation
+    if not allocs:
+        if n_ret == 0:
+            ck.bad(rule + '.alloc', mod, prep, PREP, 'allocation',
+                   'no default output buffer is allocated when out is None')
+    for site, dv in allocs:
+        verdict, detail = _alloc_verdict(fi, dv, X, y, ranks)
+        ck.decide(verdict, rule + '.alloc', mod, site, PREP, u(site),
+                  'default buffer: 1-D float64, one cell per row of X (%s)' % detail,
+                  'the default output must be a 1-D float64 array of X.shape[0] cells (%s)' % detail)
+        # every path to the allocation that has not rebound `out` before has seen `out is None`
+        only_none = bool(none_as) and not fi.cfg.reachable(
+            ENTRY, site, avoiding=none_as + [rb for rb in rebinds if rb is not site])
+        if only_none:
+            ck.ok('C13.D4.same-buffer', mod, site, 'allocation path: ' + u(site), 'fresh buffer only when out is None')
+        elif [o for o in opaque if onames & o[1]]:
+            ck.missing('C13.D4.same-buffer', 'cannot show that `%s` at %s is reached only when out is None'
+                       % (u(site)[:80], mod.loc(site)))
+        else:
+            ck.bad('C13.D4.same-buffer', mod, site, PREP, 'allocation path: ' + u(site),
+                   'a fresh buffer replaces `out` on a path where the caller supplied one: the '
+                   'caller\'s buffer never holds the result')
 
 
-def d4_wrappers(ck, mod):
+# ---------------------------------------------------------------------------
+# D4: wrappers
+
+def _kernel_returns_buffer(mod, kern):
+    """Does every return of the kernel hand back its `out` parameter itself?"""
+    fn = mod.func(kern)
+    fi = finfo(mod, fn)
+    o = params(fn)[2]
+    rs = returns_of(fn)
+    return bool(rs) and all(isinstance(r.value, ast.Name) and r.value.id == o and
+                            fi.defs_of_use(r.value) == {'PARAM'} for r in rs)
+
+
+def d4_wrappers(ck, mod, kernel_of, preps):
     rule = 'C13.D4.wrapper'
     n = 0
+    PREP = preps[0] if preps else PREP_DEFAULT
+    claimed = {}          # kernel -> entry points that call it
+    for w0, ks0 in kernel_of.items():
+        for k0 in ks0:
+            claimed.setdefault(k0, []).append(w0)
     for w, kern in WRAPPERS.items():
         fn = mod.func(w)
         ck.analysed(mod, fn)
         fi = finfo(mod, fn)
-        X, y, out = params(fn)[:3]
-        prep = [c for c in calls_in(fn) if call_name(c) == '_prepare_for_2d_to_1d_distance']
-        kc = [c for c in calls_in(fn) if (call_name(c) or '').startswith('_') and call_name(c) != '_prepare_for_2d_to_1d_distance']
-        n += 1
-        if len(prep) != 1 or len(kc) != 1:
-            ck.bad(rule, mod, fn, w, w, 'wrapper must call the validation once and one kernel once')
+        ps = params(fn)
+        if len(ps) < 3:
+            ck.missing(rule, '%s no longer takes (X, y, out)' % w)
             continue
-        ck.check(call_name(kc[0]) == kern, rule + '.kernel', mod, kc[0], w, u(kc[0]),
-                 '%s dispatches to %s' % (w, kern), '%s must dispatch to %s' % (w, kern))
-        ps, ks = fi.stmt(prep[0]), fi.stmt(kc[0])
-        ok = fi.cfg.dominates(ps, ks) and isinstance(ps, ast.Assign) and u(ps.targets[0]) == out and \
-            [u(a) for a in prep[0].args] == [X, y, out]
-        ck.check(ok, rule + '.order', mod, ps, w, '%s ; %s' % (u(ps), u(ks)),
-                 'validation dominates the kernel call',
-                 'the kernel must be reached only through `out = _prepare_for_2d_to_1d_distance(X, y, out)`')
-        okargs = [u(a) for a in kc[0].args] == [X, y, out] and all(
-            fi.defs_of_use(a) == {ps} for a in kc[0].args if isinstance(a, ast.Name) and a.id == out)
-        ck.check(okargs, rule + '.args', mod, kc[0], w, u(kc[0]),
-                 'kernel receives (X, y, validated out)', 'kernel must receive (X, y, out) with the validated buffer')
-        for r in returns_of(fn):
-            ok = isinstance(r.value, ast.Name) and r.value.id == out and fi.defs_of_use(r.value) == {ps}
-            ck.check(ok, 'C13.D4.same-buffer', mod, r, w, u(r),
-                     'returns the validated 1-D float64 buffer handed to the kernel',
-                     'the wrapper must return the validated buffer `out` itself (1-D float64), not '
-                     'the kernel\'s return value or another array')
+        X, y, out = ps[:3]
+        n += 1
+        kcs = [c for c in calls_in(fn) if call_name(c) in kernel_of.get(w, ())]
+        if not kcs:
+            others = [call_name(c) for c in calls_in(fn) if call_name(c) in mod.functions and call_name(c) not in preps]
+            if others:
+                ck.missing(rule, '%s reaches its kernel through %s: not followed' % (w, ', '.join(others)))
+            else:
+                ck.bad(rule, mod, fn, w, w, 'wrapper must call the validation once and one kernel once')
+            continue
+        good_calls = []
+        for kc in kcs:
+            # one kernel per metric: a kernel that another entry point (also) runs, or that
+            # carries another metric's conventional name, computes that other metric (D5 judges
+            # the formula of whatever kernel is reached under THIS metric as well)
+            kn = call_name(kc)
+            foreign = [w2 for w2 in claimed.get(kn, []) if w2 != w] + \
+                [w2 for w2, k2 in WRAPPERS.items() if k2 == kn and w2 != w]
+            ck.check(not foreign, rule + '.kernel', mod, kc, w, u(kc),
+                     '%s dispatches to its own kernel %s' % (w, kn),
+                     '%s must dispatch to %s; `%s` is the kernel of %s' % (w, kern, kn, '/'.join(sorted(set(foreign)))))
+            kfn = mod.func(call_name(kc))
+            bind = _call_binding(kfn, kc)
+            kps = params(kfn)[:3]
+            if bind is None or any(p not in bind for p in kps):
+                ck.missing(rule + '.args', 'arguments of `%s` in %s cannot be mapped to (X, y, out)' % (u(kc), w))
+                continue
+            ks = fi.stmt(kc)
+            aX, aY, aO = (bind[p] for p in kps)
+            ex = Expander(fi)
+            eX, eY = ex.expand(aX), ex.expand(aY)
+            okxy = isinstance(eX, ast.Name) and eX.id == X and isinstance(eY, ast.Name) and eY.id == y \
+                and ex.param_only(X, y)
+            # the buffer: a name whose only reaching definition is `name = PREP(X, y, out)`
+            pstmt = pcall = None
+            if isinstance(aO, ast.Name):
+                defs = fi.defs_of_use(aO)
+                if len(defs) == 1:
+                    site = next(iter(defs))
+                    dv = fi.def_value(site, aO.id) if site not in ('PARAM', 'UNBOUND') else None
+                    if isinstance(dv, ast.Call) and call_name(dv) in preps:
+                        pstmt, pcall = site, dv
+                        PREP = call_name(dv)
+            if pcall is None:
+                direct = isinstance(aO, ast.Call) and call_name(aO) in preps
+                if direct:
+                    ck.missing(rule + '.order', '%s passes the validation call inline to the kernel: the buffer it '
+                               'returns cannot be followed to the return' % w)
+                elif _closed(Expander(fi).expand(aO), {X, y, out}):
+                    ck.bad(rule + '.order', mod, ks, w, u(ks),
+                           'the kernel must be reached only through `out = %s(X, y, out)`: the buffer handed '
+                           'to the nogil kernel is not the validated one' % PREP)
+                else:
+                    ck.missing(rule + '.order', 'buffer argument `%s` of the kernel call in %s not recognised' % (u(aO), w))
+                continue
+            ck.check(fi.cfg.dominates(pstmt, ks) and not _swallowed(fi, pstmt), rule + '.order', mod, pstmt, w,
+                     '%s ; %s' % (u(pstmt), u(ks)), 'validation dominates the kernel call',
+                     'the kernel must be reached only through `out = %s(X, y, out)`' % PREP)
+            pbind = _call_binding(mod.func(PREP), pcall)
+            pps = params(mod.func(PREP))[:3]
+            okp = False
+            if pbind is not None and all(p in pbind for p in pps):
+                ex2 = Expander(fi)
+                pe = [ex2.expand(pbind[p]) for p in pps]
+                okp = all(isinstance(e, ast.Name) for e in pe) and [e.id for e in pe] == [X, y, out] \
+                    and ex2.param_only(X, y, out)
+            closed = _closed(Expander(fi).expand(pcall), {X, y, out, PREP}, pure=(PREP,)) and \
+                _closed(eX, {X, y, out}) and _closed(eY, {X, y, out})
+            if okxy and okp:
+                ck.ok(rule + '.args', mod, kc, u(kc), 'kernel receives (X, y, validated out); the validation saw the same (X, y) and the caller\'s out')
+                good_calls.append((kc, ks, aO.id, pstmt))
+            elif closed:
+                ck.bad(rule + '.args', mod, kc, w, u(kc), 'kernel must receive (X, y, out) with the validated buffer, '
+                       'and the validation must have seen the same X, y and the caller\'s out: `%s` / `%s`' % (u(pcall), u(kc)))
+            else:
+                ck.missing(rule + '.args', 'arguments `%s` / `%s` in %s not recognised' % (u(pcall), u(kc), w))
+        if not good_calls:
+            continue
+        rets = returns_of(fn)
+        for p in fi.cfg.pred.get(EXIT, []):
+            if not isinstance(p, (ast.Return, ast.Raise)):
+                ck.bad('C13.D4.same-buffer', mod, fn, w, 'implicit return None', 'the wrapper can fall off its end without returning the distances')
+        for r in rets:
+            v = r.value
+            sites = {id(g[3]) for g in good_calls}
+            if isinstance(v, ast.Name) and all(s not in ('PARAM', 'UNBOUND') and id(s) in sites for s in fi.defs_of_use(v)) \
+                    and fi.defs_of_use(v):
+                ck.ok('C13.D4.same-buffer', mod, r, u(r), 'returns the validated 1-D float64 buffer handed to the kernel')
+                covered = not fi.cfg.reachable(ENTRY, r, avoiding=[g[1] for g in good_calls if g[2] == v.id])
+                ck.check(covered and not any(_swallowed(fi, g[1]) for g in good_calls), rule + '.order', mod, r, w,
+                         'kernel call before ' + u(r), 'the kernel call lies on every path to the return',
+                         'a path reaches the return without running the kernel on the buffer: stale/zero distances are returned')
+                continue
+            # the kernel's own return value
+            rv = v
+            if isinstance(v, ast.Name):
+                ds = fi.defs_of_use(v)
+                if len(ds) == 1 and next(iter(ds)) not in ('PARAM', 'UNBOUND'):
+                    rv = fi.def_value(next(iter(ds)), v.id) or v
+            if isinstance(rv, ast.Call) and any(rv is g[0] for g in good_calls):
+                kname = call_name(rv)
+                ck.check(_kernel_returns_buffer(mod, kname), 'C13.D4.same-buffer', mod, r, w, u(r),
+                         'the kernel returns the very buffer it was given',
+                         'the wrapper must return the validated buffer `out` itself (1-D float64), not '
+                         'the kernel\'s return value (a reshaped 2-D view) or another array')
+                continue
+            detail = ('the wrapper must return the validated buffer `out` itself (1-D float64), not '
+                      'the kernel\'s return value or another array')
+            if v is None or _closed(Expander(fi).expand(v), {X, y, out} | {g[2] for g in good_calls}):
+                ck.bad('C13.D4.same-buffer', mod, r, w, u(r), detail)
+            else:
+                ck.missing('C13.D4.same-buffer', 'returned value `%s` of %s not recognised (%s)' % (u(v)[:80], w, detail[:60]))
     ck.floor(rule, n, 3, 'wrappers')
 
 
-def d5_formulas(ck, mod):
+# ---------------------------------------------------------------------------
+# D5: per-metric formula
+
+def _conds_between(mod, node, stop):
+    """Atomic conditions (If ancestors, with polarity) under which `node`
+    executes inside `stop`.  -> (conds, fully_understood)."""
+    conds, ok = [], True
+    ch, p = node, mod.parent.get(node)
+    while p is not None and p is not stop:
+        if isinstance(p, ast.If):
+            pol = any(ch is s for s in p.body)
+            cs = conjuncts(p.test, pol)
+            if cs is None:
+                ok = False
+            else:
+                conds += cs
+        elif isinstance(p, (ast.While, ast.Try, ast.With)):
+            ok = False
+        ch, p = p, mod.parent.get(p)
+    return conds, ok
+
+
+def _full_range(k, loop, buf, dim):
+    """True: the loop visits 0 .. extent(buf, dim)-1 once each; False: it
+    provably iterates over a range with another bound; None: not a range."""
+    it = loop.iter
+    if not (isinstance(it, ast.Call) and call_name(it) in ('range', 'prange')):
+        return None
+    a = it.args
+    if len(a) == 1:
+        lo, hi, step = ast.Constant(value=0), a[0], ast.Constant(value=1)
+    elif len(a) == 2:
+        lo, hi, step = a[0], a[1], ast.Constant(value=1)
+    elif len(a) == 3:
+        lo, hi, step = a
+    else:
+        return None
+    if const_value(lo) != 0 or const_value(step) != 1:
+        return False
+    return bool(k.extent_eq(norm_extent(hi), buf, dim))
+
+
+def _strip_cast(e):
+    while isinstance(e, ast.Call) and not e.keywords and (
+            (call_name(e) == '__cy_cast__' and len(e.args) == 2) or
+            (call_name(e) in ('float',) and len(e.args) == 1)):
+        e = e.args[-1]
+    return e
+
+
+def _elem_pair(a, b, X, y):
+    """a, b are X[I, J] and y[J] (either order) -> (I text, J text) or None."""
+    for p, q in ((a, b), (b, a)):
+        m = match('%s[_I, _J]' % X, p)
+        if m is not None:
+            m2 = match('%s[_J]' % y, q, m)
+            if m2 is not None:
+                return u(m2['_I']), u(m2['_J'])
+    return None
+
+
+def _term_verdict(metric, term, conds, conds_ok, X, y, iv, jv, scope):
+    diff = ['%s[_I, _J] - %s[_J]' % (X, y), '%s[_J] - %s[_I, _J]' % (y, X)]
+    if metric == 'hamming':
+        def closed_conds():
+            return conds_ok and all(isinstance(c, Cmp) and _closed(c.lhs, scope) and _closed(c.rhs, scope) for c in conds)
+        if const_value(term) in (1, 1.0) and not isinstance(const_value(term), bool):
+            if conds_ok and len(conds) == 1 and isinstance(conds[0], Cmp):
+                c = conds[0]
+                if _elem_pair(c.lhs, c.rhs, X, y) == (iv, jv):
+                    return ('match' if c.op is ast.NotEq else 'near'), 'counts %r' % c
+            if closed_conds():
+                return 'near', 'counts under %s' % ([repr(c) for c in conds] or 'no condition')
+            return 'far', 'condition not recognised'
+        if not conds and conds_ok and isinstance(term, ast.Compare) and len(term.ops) == 1:
+            if _elem_pair(term.left, term.comparators[0], X, y) == (iv, jv):
+                return ('match' if isinstance(term.ops[0], ast.NotEq) else 'near'), 'adds %s' % u(term)
+        if closed_conds() and _closed(term, scope, CMATH):
+            return 'near', 'adds %s' % u(term)
+        return 'far', 'term not recognised'
+    if conds or not conds_ok:
+        return 'far', 'conditional accumulation'
+    if metric == 'euclidean':
+        pats = []
+        for d in diff:
+            pats += ['(%s) ** 2' % d, '(%s) ** 2.0' % d, '(%s) * (%s)' % (d, d), 'pow(%s, 2)' % d, 'pow(%s, 2.0)' % d]
+    else:
+        pats = ['fabs(%s)' % d for d in diff] + ['abs(%s)' % d for d in diff]
+    for p in pats:
+        m = match(p, term)
+        if m is not None and u(m['_I']) == iv and u(m['_J']) == jv:
+            return 'match', p
+    if _closed(term, scope, CMATH):
+        return 'near', 'adds %s' % u(term)
+    return 'far', 'term not recognised'
+
+
+def _after(fi, a, La, s, Ls):
+    """Statement s can execute after a for the same cell (not counting a later
+    iteration of the loop they share)."""
+    if Ls is not None and Ls is La:
+        return fi.cfg.reachable(a, s, avoiding=[La])
+    return fi.cfg.reachable(a, s)
+
+
+def d5_formulas(ck, mod, fused, kernel_of):
+    """The kernel an entry point reaches is judged against the formula of THAT
+    entry point's metric."""
     rule = 'C13.D5.formula'
-    for kern in KERNELS:
+    nacc = 0
+    want_fin = {'euclidean': 'sqrt', 'manhattan': None, 'hamming': 'div'}
+    want_txt = {'euclidean': '(X[i,j]-y[j])**2 then sqrt', 'manhattan': 'fabs(X[i,j]-y[j])',
+                'hamming': 'count of X[i,j] != y[j], divided by n_features'}
+    for metric, kern in [(w, kn) for w in WRAPPERS for kn in kernel_of.get(w, ())]:
         fn = mod.func(kern)
+        fi = finfo(mod, fn)
+        k = Kernel(mod, fn, fused)
         X, y, out = params(fn)[:3]
-        accs = [s for s in walk_local(fn) if isinstance(s, ast.AugAssign) and
-                isinstance(s.target, ast.Subscript) and u(s.target.value) == out]
-        adds = [s for s in accs if isinstance(s.op, ast.Add)]
-        if len(adds) != 1:
-            ck.bad(rule, mod, fn, kern, kern, 'expected exactly one accumulation `out[i] += term`, found %d' % len(adds))
+        if any(_rebinds(fi, nm) for nm in (X, y, out)):
+            ck.missing(rule, 'a buffer parameter of %s is rebound' % kern)
             continue
-        a = adds[0]
-        i = u(a.target.slice)
-        inner = None
-        p = mod.parent.get(a)
-        while p is not None and not isinstance(p, ast.For):
-            p = mod.parent.get(p)
-        j = u(p.target) if p is not None else '?'
-        xij, yj = '%s[%s, %s]' % (X, i, j), '%s[%s]' % (y, j)
-        fik = finfo(mod, fn)
 
-        def rs(e):
-            return fik.resolve(e) if isinstance(e, ast.Name) else e
-        term = rs(a.value)
-        if isinstance(term, ast.BinOp):
-            term = ast.BinOp(left=rs(term.left), op=term.op, right=rs(term.right))
-        elif isinstance(term, ast.Call) and term.args:
-            term = ast.Call(func=term.func, args=[rs(term.args[0])] + term.args[1:], keywords=term.keywords)
-        if kern == '_euclidean':
-            ok = isinstance(term, ast.BinOp) and (
-                (isinstance(term.op, ast.Pow) and const_value(term.right) == 2 and _is_diff(term.left, xij, yj)) or
-                (isinstance(term.op, ast.Mult) and _is_diff(term.left, xij, yj) and u(term.left) == u(term.right)))
-            want = '(X[i,j]-y[j])**2 then sqrt'
-            sq = [s for s in walk_local(fn) if isinstance(s, ast.Assign) and isinstance(s.targets[0], ast.Subscript)
-                  and u(s.targets[0].value) == out and isinstance(s.value, ast.Call) and call_name(s.value) == 'sqrt'
-                  and u(s.value.args[0]) == u(s.targets[0])]
-            ck.check(len(sq) == 1, rule + '.sqrt', mod, sq[0] if sq else fn, kern, u(sq[0]) if sq else 'sqrt',
-                     'out[i] = sqrt(out[i]) applied once', 'euclidean must take the square root of each accumulated sum exactly once')
-        elif kern == '_manhattan':
-            ok = isinstance(term, ast.Call) and call_name(term) in ('fabs', 'abs') and _is_diff(term.args[0], xij, yj)
-            want = 'fabs(X[i,j]-y[j])'
-        else:
-            g = mod.parent.get(a)
-            ok = isinstance(g, ast.If) and const_value(term) == 1
-            if ok:
-                cs = conjuncts(g.test, True)
-                ok = cs is not None and len(cs) == 1 and isinstance(cs[0], Cmp) and cs[0].op is ast.NotEq \
-                    and {u(cs[0].lhs), u(cs[0].rhs)} == {xij, yj}
-            want = 'count of X[i,j] != y[j], divided by n_features'
-            divs = [s for s in accs if isinstance(s.op, ast.Div)]
-            okd = len(divs) == 1 and u(divs[0].value) in ('n_features', 'len(%s)' % y, '%s.shape[1]' % X)
-            ck.check(okd, rule + '.fraction', mod, divs[0] if divs else fn, kern, u(divs[0]) if divs else '/=',
-                     'count divided by the number of features once per row', 'hamming must divide each row count by n_features once')
-        ck.check(ok, rule, mod, a, kern, u(a), want,
-                 '%s accumulates `%s`; expected %s' % (kern, u(term), want))
+        def temp_ok(name, fn=fn):
+            t = fn.cy_locals.get(name)
+            return t is not None and not t.is_buffer and (t.text in WIDE or t.base in fused)
+
+        def E():
+            return Expander(fi, pure=CMATH, temp_ok=temp_ok)
+        scalars = set(k.scalars)
+        # ---- every way `out` is written
+        inits, accs, fins = [], [], []
+        opaque_store = False
+        for c in calls_in(fn):
+            direct = [a for a in list(c.args) + [kw.value for kw in c.keywords] if isinstance(a, ast.Name) and a.id == out]
+            meth = isinstance(c.func, ast.Attribute) and isinstance(c.func.value, ast.Name) and c.func.value.id == out \
+                and c.func.attr in MUTATING_METHODS
+            if (direct and call_name(c) != 'len') or meth:
+                opaque_store = True
+                ck.missing(rule, '%s: the output buffer is handed to `%s`; its effect on the cells is not analysed' % (kern, u(c)))
+        for s in walk_local(fn):
+            if isinstance(s, ast.Assign) and len(s.targets) == 1:
+                tg = s.targets[0]
+            elif isinstance(s, ast.AugAssign):
+                tg = s.target
+            else:
+                continue
+            if not (isinstance(tg, ast.Subscript) and isinstance(tg.value, ast.Name) and tg.value.id == out):
+                continue
+            ev = E().expand(s.value)
+            if isinstance(s, ast.AugAssign):
+                if isinstance(s.op, ast.Add):
+                    accs.append((s, tg, ev))
+                    continue
+                if isinstance(s.op, ast.Div):
+                    fins.append((s, tg, 'div', ev))
+                    continue
+                kind = None
+            else:
+                reads = [x for x in walk_expr(ev) if isinstance(x, ast.Name) and x.id == out]
+                if not reads:
+                    inits.append((s, tg, ev))
+                    continue
+                kind = None
+                same = lambda m: m is not None and u(m['_I']) == u(canon(tg.slice))
+                for pat in ('%s[_I] + _T' % out, '_T + %s[_I]' % out):
+                    m = match(pat, ev)
+                    if same(m) and out not in names_loaded(m['_T']):
+                        accs.append((s, tg, m['_T']))
+                        kind = 'acc'
+                        break
+                if kind is None:
+                    for pat in ('sqrt(%s[_I])' % out, 'np.sqrt(%s[_I])' % out, '%s[_I] ** 0.5' % out, 'pow(%s[_I], 0.5)' % out):
+                        if same(match(pat, ev)):
+                            fins.append((s, tg, 'sqrt', None))
+                            kind = 'sqrt'
+                            break
+                if kind is None:
+                    m = match('%s[_I] / _D' % out, ev)
+                    if same(m) and out not in names_loaded(m['_D']):
+                        fins.append((s, tg, 'div', m['_D']))
+                        kind = 'div'
+                if kind is not None:
+                    continue
+            loops = k.enclosing_loops(s)
+            scope = {X, y, out} | scalars | {l.target.id for l in loops if isinstance(l.target, ast.Name)}
+            if _closed(ev, scope, CMATH):
+                ck.bad(rule + '.store', mod, s, kern, u(s),
+                       '%s writes `%s` into the output buffer: not an initialisation, an accumulation of the '
+                       'metric\'s term or its finishing step (%s)' % (kern, u(s), want_txt[metric]))
+            else:
+                opaque_store = True
+                ck.missing(rule + '.store', 'store `%s` in %s not recognised' % (u(s), kern))
+
+        def idx_loop(s, tg):
+            """(index variable, its loop, all enclosing loops) of a store out[v]."""
+            loops = k.enclosing_loops(s)
+            if not isinstance(tg.slice, ast.Name):
+                return None, None, loops
+            byvar = {l.target.id: l for l in loops if isinstance(l.target, ast.Name)}
+            return tg.slice.id, byvar.get(tg.slice.id), loops
+
+        def coverage(s, loop, buf, dim, what):
+            fr = _full_range(k, loop, buf, dim)
+            construct = '%s covers %s' % (u(loop.iter), what)
+            if fr:
+                ck.ok(rule + '.coverage', mod, loop, construct, 'range(0, extent) with unit step')
+            elif fr is False and names_loaded(loop.iter) <= scalars | {X, y, out, 'range', 'prange', 'len', 'True', 'False'}:
+                ck.bad(rule + '.coverage', mod, loop, kern, construct,
+                       'the loop `for %s in %s` around `%s` does not visit every %s exactly once '
+                       '(expected range(0, extent) with unit step): cells/coordinates are skipped'
+                       % (u(loop.target), u(loop.iter), u(s), what))
+            else:
+                ck.missing(rule + '.coverage', 'iteration space `%s` in %s not recognised' % (u(loop.iter), kern))
+            return bool(fr)
+
+        # ---- initial stores: the value 0
+        for s, tg, ev in inits:
+            c = const_value(ev)
+            if c in (0, 0.0) and not isinstance(c, bool):
+                ck.ok(rule + '.init', mod, s, u(s), 'cells start at 0')
+            elif _closed(ev, {X, y} | scalars | {l.target.id for l in k.enclosing_loops(s) if isinstance(l.target, ast.Name)}, CMATH):
+                ck.bad(rule + '.init', mod, s, kern, u(s),
+                       'the output cell must start at 0 before the per-row sum is accumulated; `%s` makes every '
+                       'distance start from another value' % u(s))
+            else:
+                ck.missing(rule + '.init', 'initial store `%s` in %s not recognised' % (u(s), kern))
+
+        # ---- finishing stores: shape, once per cell
+        fin_ok = []
+        for s, tg, kind, opnd in fins:
+            iv, Ls, loops = idx_loop(s, tg)
+            sub = '.sqrt' if kind == 'sqrt' else '.fraction'
+            if Ls is not None and len(loops) > 1 and all(_full_range(k, l, out, 0) is not None for l in loops):
+                ck.bad(rule + sub, mod, s, kern, u(s),
+                       'the finishing step `%s` sits inside %d nested loops: it is applied to the same cell more than once '
+                       '(and to partial sums)' % (u(s), len(loops)))
+                opaque_store = True       # no second report "missing finishing step"
+                continue
+            if Ls is None or len(loops) != 1:
+                ck.missing(rule, 'finishing store `%s` in %s is not inside exactly one loop over its own index' % (u(s), kern))
+                opaque_store = True
+                continue
+            conds, cok = _conds_between(mod, s, Ls)
+            if conds or not cok:
+                ck.missing(rule, 'finishing store `%s` in %s is conditional' % (u(s), kern))
+                opaque_store = True
+                continue
+            if kind != want_fin[metric]:
+                ck.bad(rule + ('.sqrt' if kind == 'sqrt' else '.fraction'), mod, s, kern, u(s),
+                       '%s must not post-process its sums with `%s` (expected %s)' % (kern, u(s), want_txt[metric]))
+                continue
+            if not coverage(s, Ls, out, 0, 'every row'):
+                continue
+            if kind == 'div':
+                d = _strip_cast(opnd)
+                if k.extent_eq(norm_extent(d), X, 1) or k.extent_eq(norm_extent(d), y, 0):
+                    ck.ok(rule + '.fraction', mod, s, u(s), 'count divided by the number of features')
+                elif _closed(d, {X, y, out} | scalars):
+                    ck.bad(rule + '.fraction', mod, s, kern, u(s),
+                           'hamming must divide each row count by n_features (= X.shape[1]); `%s` is not known to equal it' % u(d))
+                    continue
+                else:
+                    ck.missing(rule + '.fraction', 'divisor `%s` in %s not recognised' % (u(d), kern))
+                    continue
+            fin_ok.append((s, Ls, kind))
+
+        # ---- accumulations
+        rets = returns_of(fn)
+        for s, tg, term in accs:
+            nacc += 1
+            iv, Li, loops = idx_loop(s, tg)
+            if Li is None or len(loops) != 2 or not all(isinstance(l.target, ast.Name) for l in loops):
+                ck.missing(rule, 'accumulation `%s` in %s is not inside a (row, feature) loop pair over its own index' % (u(s), kern))
+                continue
+            Lj = [l for l in loops if l is not Li][0]
+            jv = Lj.target.id
+            outer = loops[-1]
+            if any(isinstance(x, (ast.Break, ast.Continue, ast.Return, ast.While)) for x in walk_local(outer)):
+                ck.missing(rule, 'loop around `%s` in %s is left early (break/continue/return)' % (u(s), kern))
+                continue
+            coverage(s, Li, out, 0, 'every row')
+            coverage(s, Lj, X, 1, 'every feature')
+            conds0, cok = _conds_between(mod, s, outer)
+            ex = E()
+            conds = []
+            for c in conds0:
+                conds.append(Cmp(ex.expand(c.lhs), c.op, ex.expand(c.rhs)) if isinstance(c, Cmp) else c)
+            scope = {X, y, iv, jv}
+            verdict, detail = _term_verdict(metric, term, conds, cok, X, y, iv, jv, scope)
+            ck.decide(verdict, rule, mod, s, kern, u(s), want_txt[metric] + ' [' + detail + ']',
+                      '%s accumulates `%s`%s; expected %s' % (
+                          kern, u(term), (' under `%s`' % ' and '.join(repr(c) if isinstance(c, Cmp) else u(c[1]) for c in conds)) if conds else '',
+                          want_txt[metric]))
+            # nothing resets the cell after it was accumulated into
+            for z, ztg, _ in inits:
+                _, Lz, _l = idx_loop(z, ztg)
+                if _after(fi, s, Li, z, Lz):
+                    ck.bad(rule + '.init', mod, z, kern, u(z) + ' after ' + u(s),
+                           'the cell is overwritten after the sum was accumulated: the result is lost')
+            # the finishing store, exactly once, on every path to a return
+            kind = want_fin[metric]
+            if kind is None:
+                continue
+            sub = '.sqrt' if kind == 'sqrt' else '.fraction'
+            what = ('out[i] = sqrt(out[i]) applied once' if kind == 'sqrt'
+                    else 'count divided by the number of features once per row')
+            for r in rets:
+                if not fi.cfg.reachable(s, r):
+                    continue
+                on = []
+                for f, Ls, fk in fin_ok:
+                    if _after(fi, s, Li, f, Ls) and not _after(fi, f, Ls, s, Li) and fi.cfg.reachable(f, r):
+                        on.append((f, Ls))
+                if len(on) == 1:
+                    f, Ls = on[0]
+                    bypass = fi.cfg.reachable(s, r, avoiding=[f if Ls is Li else Ls])
+                    ck.check(not bypass, rule + sub, mod, f, kern, u(f), what,
+                             'a path from the accumulation `%s` to the return goes round `%s`' % (u(s), u(f)))
+                elif len(on) > 1:
+                    ck.bad(rule + sub, mod, on[1][0], kern, '; '.join(u(f) for f, _ in on),
+                           ('euclidean must take the square root of each accumulated sum exactly once' if kind == 'sqrt'
+                            else 'hamming must divide each row count by n_features once') + ': applied %d times' % len(on))
+                elif opaque_store:
+                    ck.missing(rule + sub, 'finishing step of %s not recognised' % kern)
+                else:
+                    ck.bad(rule + sub, mod, fn, kern, 'sqrt' if kind == 'sqrt' else '/=',
+                           ('euclidean must take the square root of each accumulated sum exactly once' if kind == 'sqrt'
+                            else 'hamming must divide each row count by n_features once') +
+                           ': no such store follows `%s`' % u(s))
+        if not accs and not opaque_store:
+            ck.bad(rule, mod, fn, kern, kern, 'expected an accumulation `out[i] += term`, found none')
+    ck.floor(rule, nacc, 3, 'accumulations into the output buffer')
 
 
-def _is_diff(e, a, b):
-    return isinstance(e, ast.BinOp) and isinstance(e.op, ast.Sub) and {u(e.left), u(e.right)} == {a, b}
+# ---------------------------------------------------------------------------
+# D3: semantic second opinion for the shared (partly positional) kernel rule
+
+class _Recheck:
+    """Checker proxy: an obligation the shared kernel rule reports as broken is
+    re-examined with a semantic predicate before it is recorded."""
+
+    def __init__(self, ck, again):
+        self._ck, self._again = ck, again
+
+    def __getattr__(self, name):
+        return getattr(self._ck, name)
+
+    def check(self, cond, rule, mod, node, function, construct, detail_ok='', detail_bad='', witness=None):
+        if not cond:
+            why = self._again(node)
+            if why:
+                self._ck.ok(rule, mod, node, construct, why)
+                return True
+        return self._ck.check(cond, rule, mod, node, function, construct, detail_ok, detail_bad, witness)
+
+
+def _zero_first(mod, fn, fused):
+    """again(acc) -> reason if every execution of the accumulation `out[i] op= v`
+    is preceded by a plain store to that cell: in the same row iteration
+    (dominating store to out[i]), by a dominating earlier loop that stores
+    every row unconditionally, or by a dominating whole-buffer store."""
+    k = Kernel(mod, fn, fused)
+    fi = k.fi
+    out = params(fn)[2]
+
+    def own_loop(s, tg):
+        if not isinstance(tg.slice, ast.Name):
+            return None
+        for l in k.enclosing_loops(s):
+            if isinstance(l.target, ast.Name) and l.target.id == tg.slice.id:
+                return l
+        return None
+
+    def again(acc):
+        atg = acc.target if isinstance(acc, ast.AugAssign) else (
+            acc.targets[0] if isinstance(acc, ast.Assign) and len(acc.targets) == 1 else None)
+        if not (isinstance(atg, ast.Subscript) and isinstance(atg.value, ast.Name) and atg.value.id == out):
+            return None
+        La = own_loop(acc, atg)
+        if La is None:
+            return None
+        for z in walk_local(fn):
+            if not (isinstance(z, ast.Assign) and len(z.targets) == 1 and isinstance(z.targets[0], ast.Subscript)
+                    and isinstance(z.targets[0].value, ast.Name) and z.targets[0].value.id == out
+                    and out not in names_loaded(z.value)):
+                continue
+            tg = z.targets[0]
+            sl = tg.slice
+            if isinstance(sl, ast.Slice) and sl.lower is None and sl.upper is None and sl.step is None:
+                if fi.cfg.dominates(z, acc):
+                    return 'the whole buffer is stored (`%s`) before every accumulation' % u(z)
+                continue
+            Lz = own_loop(z, tg)
+            if Lz is None:
+                continue
+            if Lz is La:
+                if fi.cfg.dominates(z, acc):
+                    return 'cell %s is stored (`%s`) before every accumulation in the same iteration' % (u(tg), u(z))
+                continue
+            conds, cok = _conds_between(mod, z, Lz)
+            if len(k.enclosing_loops(z)) == 1 and not conds and cok and _full_range(k, Lz, out, 0) \
+                    and not any(isinstance(x, (ast.Break, ast.Continue, ast.Return)) for x in walk_local(Lz)) \
+                    and fi.cfg.dominates(Lz, acc) and not fi.cfg.reachable(acc, Lz):
+                return 'a dominating earlier loop `for %s in %s` stores every cell (`%s`)' % (u(Lz.target), u(Lz.iter), u(z))
+        return None
+    return again
+
+
+# ---------------------------------------------------------------------------
+# D6: registry
+
+def _module_imports(mod):
+    """local name -> (module, original name or None for `import m as x`)."""
+    out = {}
+    for n in ast.walk(mod.tree):
+        if isinstance(n, ast.ImportFrom):
+            for a in n.names:
+                out[a.asname or a.name] = ((n.module or ''), a.name)
+        elif isinstance(n, ast.Import):
+            for a in n.names:
+                if a.asname:
+                    out[a.asname] = (a.name, None)
+                else:
+                    out[a.name.split('.')[0]] = (a.name.split('.')[0], None)
+    return out
+
+
+def _module_constant(mod, name):
+    """Elements of a module-level `name = [consts...]` (single assignment)."""
+    vals = [s.value for s in mod.tree.body if isinstance(s, ast.Assign)
+            and any(isinstance(t, ast.Name) and t.id == name for t in s.targets)]
+    others = [s for s in ast.walk(mod.tree) if isinstance(s, (ast.Assign, ast.AugAssign, ast.AnnAssign))
+              and name in sum((target_names(t) for t in (s.targets if isinstance(s, ast.Assign) else [s.target])), [])]
+    if len(vals) != 1 or len(others) != 1:
+        return None
+    return _const_elems(vals[0])
+
+
+def _const_elems(e):
+    if isinstance(e, (ast.List, ast.Tuple, ast.Set)) and all(isinstance(x, ast.Constant) for x in e.elts):
+        return [x.value for x in e.elts]
+    if isinstance(e, ast.Dict) and all(isinstance(x, ast.Constant) for x in e.keys):
+        return [x.value for x in e.keys]
+    return None
+
+
+_CALLABLE = object()      # a user-supplied distance function
+_COMPOUND = tuple(getattr(ast, n) for n in ('For', 'AsyncFor', 'While', 'With', 'AsyncWith', 'Match') if hasattr(ast, n))
+
+
+def _ev(test, metric, val, mod):
+    """Three-valued truth of `test` when parameter `metric` has value `val`
+    (a string, or _CALLABLE)."""
+    if isinstance(test, ast.UnaryOp) and isinstance(test.op, ast.Not):
+        v = _ev(test.operand, metric, val, mod)
+        return None if v is None else not v
+    if isinstance(test, ast.BoolOp):
+        vs = [_ev(x, metric, val, mod) for x in test.values]
+        if isinstance(test.op, ast.And):
+            return False if False in vs else (None if None in vs else True)
+        return True if True in vs else (None if None in vs else False)
+    if isinstance(test, ast.Call) and not test.keywords:
+        cn = call_name(test)
+        if cn == 'callable' and len(test.args) == 1 and isinstance(test.args[0], ast.Name) and test.args[0].id == metric:
+            return val is _CALLABLE
+        if cn == 'isinstance' and len(test.args) == 2 and isinstance(test.args[0], ast.Name) and test.args[0].id == metric \
+                and u(test.args[1]) == 'str':
+            return val is not _CALLABLE
+        return None
+    if isinstance(test, ast.Compare) and len(test.ops) == 1:
+        op, a, b = test.ops[0], test.left, test.comparators[0]
+        if isinstance(op, (ast.Eq, ast.NotEq)):
+            if isinstance(b, ast.Name) and b.id == metric:
+                a, b = b, a
+            if isinstance(a, ast.Name) and a.id == metric and isinstance(b, ast.Constant):
+                eq = (val is not _CALLABLE) and b.value == val
+                return eq if isinstance(op, ast.Eq) else not eq
+            return None
+        if isinstance(op, (ast.In, ast.NotIn)) and isinstance(a, ast.Name) and a.id == metric:
+            elems = _const_elems(b)
+            if elems is None and isinstance(b, ast.Name):
+                elems = _module_constant(mod, b.id)
+            if elems is None:
+                return None
+            inside = (val is not _CALLABLE) and val in elems
+            return inside if isinstance(op, ast.In) else not inside
+    return None
+
+
+def _decision_paths(stmts, conds, metric):
+    """Execution paths of a statement list as (conditions, outcome) in
+    evaluation order; outcome = ('return', expr) | ('raise', stmt) |
+    ('fall', None) | ('opaque', stmt)."""
+    for i, s in enumerate(stmts):
+        rest = stmts[i + 1:]
+        if isinstance(s, ast.If):
+            yield from _decision_paths(s.body + rest, conds + [(s.test, True)], metric)
+            yield from _decision_paths(s.orelse + rest, conds + [(s.test, False)], metric)
+            return
+        if isinstance(s, ast.Return):
+            yield conds, ('return', s.value)
+            return
+        if isinstance(s, ast.Raise):
+            yield conds, ('raise', s)
+            return
+        if isinstance(s, ast.Try):
+            # normal completion of the body; handlers are alternative outcomes
+            # of the same conditions and are not needed to decide the mapping
+            yield from _decision_paths(s.body + s.orelse + s.finalbody + rest, conds, metric)
+            return
+        if isinstance(s, _COMPOUND):
+            yield conds, ('opaque', s)
+            return
+        if metric in stmt_defs(s):
+            yield conds, ('opaque', s)
+            return
+    yield conds, ('fall', None)
+
+
+def _decide(fn, metric, val, mod):
+    """Outcome of the function for metric == val, or ('unknown', why)."""
+    for conds, outcome in _decision_paths(fn.body, [], metric):
+        verdict = True
+        for test, pol in conds:
+            v = _ev(test, metric, val, mod)
+            if v is None:
+                verdict = None
+                break
+            if v != pol:
+                verdict = False
+                break
+        if verdict is None:
+            return ('unknown', 'condition `%s` not evaluated' % u(test))
+        if verdict:
+            return outcome
+    return ('unknown', 'no path')
+
+
+def _global_ref(mod, fi, e):
+    """(module, attribute) an expression refers to through the imports."""
+    e = fi.expand(e) if e is not None else e
+    imps = _module_imports(mod)
+    shadow = set(mod.functions) | set(mod.classes) | {t for s in mod.tree.body if isinstance(s, ast.Assign)
+                                                      for tt in s.targets for t in target_names(tt)}
+    if isinstance(e, ast.Name):
+        if e.id in shadow or e.id not in imps or fi.rd.locals and e.id in fi.rd.locals:
+            return None
+        m, a = imps[e.id]
+        return (m, a) if a is not None else None
+    if isinstance(e, ast.Attribute) and isinstance(e.value, ast.Name):
+        b = e.value.id
+        if b in shadow or b not in imps or b in fi.rd.locals:
+            return None
+        m, a = imps[b]
+        return ((m + '.' + a) if a is not None else m, e.attr)
+    return None
 
 
 def d6_registry(ck):
@@ -206,67 +1392,104 @@ def d6_registry(ck):
     mod = ck.repo.mod(CU)
     fn = mod.func('_get_distance_method')
     ck.analysed(mod, fn)
-    table = {}
-    for n in walk_local(fn):
-        if isinstance(n, ast.If):
-            cs = conjuncts(n.test, True)
-            if cs and len(cs) == 1 and isinstance(cs[0], Cmp) and u(cs[0].lhs) == 'metric':
-                rets = [r for r in n.body if isinstance(r, ast.Return)]
-                if not rets:
-                    continue
-                if cs[0].op is ast.Eq and isinstance(cs[0].rhs, ast.Constant):
-                    table[cs[0].rhs.value] = u(rets[0].value)
-                elif cs[0].op is ast.In and isinstance(cs[0].rhs, (ast.List, ast.Tuple)):
-                    for e in cs[0].rhs.elts:
-                        if isinstance(e, ast.Constant):
-                            table[e.value] = u(rets[0].value)
-    want = {'euclidean': 'euclidean', 'manhattan': 'manhattan', 'cityblock': 'manhattan', 'rmsd': 'md.rmsd'}
-    for k, v in want.items():
-        ck.check(table.get(k) == v, rule, mod, fn, '_get_distance_method', "'%s' -> %s" % (k, table.get(k)),
-                 "metric name '%s' maps to %s" % (k, v), "metric name '%s' must map to %s" % (k, v))
-    # the imported names are libdist's
-    imp = [n for n in ast.walk(mod.tree) if isinstance(n, ast.ImportFrom) and (n.module or '').endswith('libdist')]
-    names = {a.asname or a.name: a.name for n in imp for a in n.names}
-    ck.check(names.get('euclidean') == 'euclidean' and names.get('manhattan') == 'manhattan', rule, mod,
-             imp[0] if imp else fn, 'module', 'from ..geometry.libdist import %s' % names,
-             'kernels imported under their own names', 'euclidean/manhattan must be libdist.euclidean/manhattan')
-    cb = [n for n in walk_local(fn) if isinstance(n, ast.If) and u(n.test) == 'callable(metric)']
-    ck.check(bool(cb) and any(isinstance(r, ast.Return) and u(r.value) == 'metric' for r in cb[0].body) if cb else False,
-             rule, mod, cb[0] if cb else fn, '_get_distance_method', 'callable(metric) -> metric',
-             'user callables are passed through', 'a user-supplied callable must be returned unchanged')
+    fi = finfo(mod, fn)
+    if not params(fn):
+        ck.missing(rule, '_get_distance_method takes no parameter')
+        return
+    metric = params(fn)[0]
+    want = {'euclidean': ('libdist', 'euclidean'), 'manhattan': ('libdist', 'manhattan'),
+            'cityblock': ('libdist', 'manhattan'), 'rmsd': ('mdtraj', 'rmsd')}
+    n = 0
+    for key, (wm, wa) in want.items():
+        out = _decide(fn, metric, key, mod)
+        n += out[0] in ('return', 'raise', 'fall')
+        shown = "'%s' -> %s" % (key, u(out[1]) if out[0] == 'return' else out[0])
+        if out[0] == 'unknown' or out[0] == 'opaque':
+            ck.missing(rule, "mapping of metric name '%s' not decided: %s" % (key, out[1] if out[0] == 'unknown' else u(out[1])[:80]))
+            continue
+        if out[0] != 'return' or out[1] is None:
+            ck.bad(rule, mod, fn, '_get_distance_method', shown, "metric name '%s' must map to %s" % (key, wa))
+            continue
+        ref = _global_ref(mod, fi, out[1])
+        if ref is None:
+            ev = fi.expand(out[1])
+            if isinstance(ev, ast.Name) and ev.id == metric:
+                ck.bad(rule, mod, fn, '_get_distance_method', shown, "metric name '%s' must map to %s" % (key, wa))
+            else:
+                ck.missing(rule, "value `%s` returned for metric name '%s' cannot be followed to an import" % (u(out[1])[:80], key))
+            continue
+        okm = ref[1] == wa and (ref[0] == wm or ref[0].endswith('.' + wm))
+        ck.check(okm, rule, mod, fn, '_get_distance_method', shown,
+                 "metric name '%s' maps to %s.%s" % (key, ref[0], ref[1]),
+                 "metric name '%s' must map to %s.%s (it maps to %s.%s)" % (key, wm, wa, ref[0], ref[1]))
+    out = _decide(fn, metric, _CALLABLE, mod)
+    if out[0] in ('unknown', 'opaque'):
+        ck.missing(rule, 'treatment of a callable metric not decided: %s' % (out[1] if out[0] == 'unknown' else u(out[1])[:80]))
+    else:
+        ok = out[0] == 'return' and isinstance(out[1], ast.AST)
+        if ok:
+            ev = fi.expand(out[1])
+            ok = isinstance(ev, ast.Name) and ev.id == metric and not _rebinds(fi, metric)
+        ck.check(ok, rule, mod, fn, '_get_distance_method', 'callable(metric) -> metric',
+                 'user callables are passed through', 'a user-supplied callable must be returned unchanged')
+    ck.floor(rule, n, 4, 'metric names')
 
+
+# ---------------------------------------------------------------------------
 
 def check(ck):
     mod = ck.repo.mod(LD)
     fused = mod.tree.cy_fused
-    d0_validation(ck, mod)
+    kernel_of, kernels, preps = discover(mod, fused)
+    if not kernels:
+        kernels = [k for k in WRAPPERS.values() if k in mod.functions]
+        kernel_of = {w: [k] for w, k in WRAPPERS.items() if k in mod.functions}
+    if not preps:
+        ck.missing('C13.D0.validation', 'no preparation/validation function found between the entry points and the kernels')
+    for pname in preps:
+        d0_validation(ck, mod, pname, kernels)
     nb = np_ = nz = 0
-    for kern in KERNELS:
+    for kern in kernels:
         fn = mod.func(kern)
         d = fn.cy_directives
         ck.ok('C13.kernel', mod, fn, '%s boundscheck=%s wraparound=%s' % (kern, d.get('boundscheck'), d.get('wraparound')),
               'analysed as an unchecked kernel' if d.get('boundscheck') is False else 'bounds-checked by Cython')
+        # instance floors are per kernel (every kernel has its bounds obligations for the
+        # four buffer dimensions, a parallel loop and an accumulation), not a frozen total:
+        # merging or splitting loops changes the totals but not what has to be shown
         c, k = check_bounds(ck, 'C13.D1.bounds', mod, fn, fused)
-        nb += c
-        np_ += check_prange(ck, 'C13.D2.prange', mod, fn, fused)
-        nz += check_zero_before_accumulate(ck, 'C13.D3.zero-first', mod, fn, fused)
+        nb += min(c, 4)
+        np_ += min(check_prange(ck, 'C13.D2.prange', mod, fn, fused), 1)
+        zf = _zero_first(mod, fn, fused)
+        nzk = check_zero_before_accumulate(_Recheck(ck, zf), 'C13.D3.zero-first', mod, fn, fused)
+        # read-modify-write spelled as a plain assignment: out[i] = out[i] <op> v
+        o = params(fn)[2]
+        for s in walk_local(fn):
+            if isinstance(s, ast.Assign) and len(s.targets) == 1 and isinstance(s.targets[0], ast.Subscript) and \
+                    isinstance(s.targets[0].value, ast.Name) and s.targets[0].value.id == o and o in names_loaded(s.value):
+                nzk += 1
+                why = zf(s)
+                ck.check(bool(why), 'C13.D3.zero-first', mod, s, kern, u(s), why or '',
+                         'the kernel updates caller-supplied `%s` from its previous contents without first storing '
+                         'to that cell: the result depends on what the buffer held before' % o)
+        nz += min(nzk, 1)
         check_elem_type_temps(ck, 'C13.D5.no-narrow-temp', mod, fn, fused)
-        # kernel asserts present (the equalities the bounds proof used)
         # no raw pointer arithmetic / casts
         for c2 in calls_in(fn):
-            if call_name(c2) in ('__cy_cast__', '__cy_addr__'):
+            if call_name(c2) == '__cy_addr__' or (call_name(c2) == '__cy_cast__' and c2.args and
+                                                   '*' in str(const_value(c2.args[0], ''))):
                 ck.bad('C13.D1.no-pointers', mod, c2, kern, u(c2),
-                       'raw address / typecast inside a distance kernel: pointer arithmetic ignores the strides of the '
+                       'raw address / pointer typecast inside a distance kernel: pointer arithmetic ignores the strides of the '
                        'typed buffer, so Fortran-ordered and column-sliced inputs are read from the wrong cells')
         for nm, t in fn.cy_locals.items():
             if getattr(t, 'pointer', False):
                 ck.bad('C13.D1.no-pointers', mod, fn, kern, 'cdef %s %s' % (t.text, nm),
                        'a raw C pointer is declared in a distance kernel: every element access must go through the typed '
                        'buffer (which honours strides for every memory layout)')
-    ck.floor('C13.D1.bounds', nb, 12, 'bounds obligations')
-    ck.floor('C13.D2.prange', np_, 6, 'prange loops')
-    ck.floor('C13.D3.zero-first', nz, 4, 'accumulations')
-    d4_wrappers(ck, mod)
-    d5_formulas(ck, mod)
+    ck.floor('C13.D1.bounds', nb, 12, 'bounds obligations (4 buffer dimensions in each of 3 kernels)')
+    ck.floor('C13.D2.prange', np_, 3, 'kernels with a prange loop')
+    ck.floor('C13.D3.zero-first', nz, 3, 'kernels with an accumulation into the output buffer')
+    d4_wrappers(ck, mod, kernel_of, preps)
+    d5_formulas(ck, mod, fused, kernel_of)
     d6_registry(ck)
     return EXPLANATION
